@@ -448,7 +448,7 @@ func (w *World) Apply(op string) {
 			err = tr.Commit()
 			if err != nil {
 				w.Errs = append(w.Errs, "transaction commit (first attempt): "+err.Error())
-				extra := model.BatchOp{K: "c", V: w.val("M")}
+				extra := model.BatchOp{K: "a", V: w.val("M")}
 				if perr := tr.Put(buf(extra.K), buf(extra.V), nil); perr == nil {
 					mb = append(append(model.Batch{}, mb...), extra)
 				}
